@@ -568,6 +568,42 @@ HUGE_FLOAT_PROGRAMS = [
 ]
 
 
+# J1 / X33 / X5: `parse_json` reads a number by its spelling — an integer spelling which fits an int is that int, exactly
+# (ints beyond 2^53 used to be rounded through float64, 2^63-1 used to come back as a float), every other number is a float
+# (a whole float such as 2.0, written `2.0`, used to come back as the int 2 and was refused by `let f: float`). The
+# generated values stay within 2^53 / mostly non-integral where JSON is involved, so these run as fixed programs.
+JSON_NUMBER_PROGRAMS = [
+    # ints beyond 2^53 (where a float64 has gaps) and at the ends of the int64 range, under annotated lets and `as`
+    ("fn main() {\n    let a: [int] = [9007199254740993, 1, 9223372036854775807, -9223372036854775807, 9007199254740992, -9007199254740993];\n"
+     "    let back: [int] = a.to_json().parse_json();\n    println(back == a, a == back);\n    println(back);\n"
+     "    let o = new { id: 9223372036854775807, n: -9007199254740993, l: [4611686018427387905] };\n"
+     "    let ob: { id: int, n: int, l: [int] } = o.to_json().parse_json();\n    println(ob == o, o == ob, ob.id, ob.n, ob.l);\n"
+     "    let m = o.to_json().parse_json() as { id: int, n: int, l: [int] };\n    println(m == o, m.id - 1, m.l[0] - 1);\n"
+     "    println(\"9223372036854775807\".parse_json() as int, \"-9223372036854775807\".parse_json() as int, \"9007199254740993\".parse_json() as int);\n"
+     "    let i: int = 9007199254740993;\n    let ib: int = \"9007199254740993\".parse_json();\n    println(ib == i, ib);\n}",
+     "true true\n[9007199254740993, 1, 9223372036854775807, -9223372036854775807, 9007199254740992, -9007199254740993]\n"
+     "true true 9223372036854775807 -9007199254740993 [4611686018427387905]\ntrue 9223372036854775806 4611686018427387904\n"
+     "9223372036854775807 -9223372036854775807 9007199254740993\ntrue 9007199254740993\n"),
+    # whole floats are written with a fraction and read back as floats: annotated lets (which convert nothing) accept them
+    ("fn main() {\n    let f: float = 2.0;\n    let fb: float = \"2.0\".parse_json();\n    println(fb == f, f == fb, [f].to_json());\n"
+     "    let l: [float] = [2.0, 0.0, -3.0, 1.5, 1000000.0, 9007199254740992.0];\n    let lb: [float] = l.to_json().parse_json();\n    println(lb == l, l == lb, lb);\n"
+     "    let o = new { level: 4.0, count: 4, opt: ?7.0, items: [1.0, 2.5], deep: [[?3.0]] };\n"
+     "    let ob: { level: float, count: int, opt: ?float, items: [float], deep: [[?float]] } = o.to_json().parse_json();\n"
+     "    println(ob == o, o == ob, ob.level, ob.count, o.to_json() == ob.to_json());\n"
+     "    let oa = o.to_json().parse_json() as { level: float, count: int, opt: ?float, items: [float], deep: [[?float]] };\n    println(oa == o, oa.to_json() == o.to_json());\n}",
+     "true true [2.0]\ntrue true [2, 0, -3, 1.5, 1e+06, 9.007199254740992e+15]\ntrue true 4 4 true\ntrue true\n"),
+    # the spelling decides the kind of a number of a document: ints and floats stay apart under annotated lets
+    ("fn main() {\n    let x: [any] = \"[1, 2.0, 1e3, 1E0, -0, 0.0, 9223372036854775808, 9223372036854775807, -9223372036854775808, 2.5]\".parse_json();\n    println(x.to_json());\n"
+     "    try { let bad: [int] = \"[1, 2.0]\".parse_json(); println(bad); } catch e { println(\"refused\"); }\n"
+     "    try { let bad: [float] = \"[1.5, 2]\".parse_json(); println(bad); } catch e { println(\"refused\"); }\n"
+     "    try { let ok: [int] = \"[1, 2]\".parse_json(); println(ok); } catch e { println(\"refused\"); }\n"
+     "    try { let ok: [float] = \"[1.5, 2.0]\".parse_json(); println(ok); } catch e { println(\"refused\"); }\n"
+     "    try { println(\"1e999\".parse_json() as float); } catch e { println(\"caught\"); }\n"
+     "    try { println(\"[1] 2\".parse_json() as [int]); } catch e { println(\"caught\"); }\n}",
+     "[1,2.0,1000.0,1.0,0,0.0,9223372036854775808.0,9223372036854775807,-9223372036854775808,2.5]\nrefused\nrefused\n[1, 2]\n[1.5, 2]\ncaught\ncaught\n"),
+]
+
+
 # a copy shares no mutable state with its original — the iteration cursor included: a loop (the compiler's snapshot is a
 # clone), an assigned copy, a value read from a field or passed as an argument, each left early, then iterated again
 CURSOR_PROGRAMS = [
@@ -595,7 +631,7 @@ OPTION_FLOAT_PROGRAMS = [
 
 
 def check_huge_floats(ctx):
-    progs = HUGE_FLOAT_PROGRAMS + CURSOR_PROGRAMS + OPTION_FLOAT_PROGRAMS
+    progs = HUGE_FLOAT_PROGRAMS + JSON_NUMBER_PROGRAMS + CURSOR_PROGRAMS + OPTION_FLOAT_PROGRAMS
     go = core.go_lines("run", [f"(run (main {G.hexs(src)}))" for src, _ in progs], timeout=300)
     for (src, want), g in zip(progs, go):
         ctx.count(case_key=src, nontrivial=True)
@@ -614,6 +650,7 @@ def check_huge_floats(ctx):
             if not w or w[0] != "OK" or out != want:
                 ctx.violation(dict(rep, backend=be, go=parts.get(be, "")[:400]),
                               f"{be}: " + ("to_json / parse_json of floats beyond the int64 range does not give an equal value" if (src, want) in HUGE_FLOAT_PROGRAMS else
+                                           "to_json / parse_json of ints beyond 2^53 / of whole floats under the value's type does not give an equal value" if (src, want) in JSON_NUMBER_PROGRAMS else
                                            ("a copy (loop snapshot, assignment, field read, argument) shares iteration state with its original" if (src, want) in CURSOR_PROGRAMS else
                                             "JSON round trip of whole floats inside options through `as`"))
                               + f" ({out!r}, expected {want!r})")
